@@ -1002,6 +1002,9 @@ def _typed_case(rng, op):
         c['added_fraction'] = f
         c['_ft'] = rng.choice(['frac', 'dec', 'float'] if f == '1/2' else ['frac', 'dec'])
         c['_re'] = rng.choice(['name', 'obj'])
+    for key, kk in (('unscored', '_ut'), ('bottom', '_bt')):
+        if c[key] not in (None, 'min') and Fraction(c[key]).denominator != 1 and c[kk] == 'int':
+            c[kk] = kinds[1]
     return c
 
 
@@ -1465,14 +1468,28 @@ REQUIRED_COUNTERS = ['pav_unique', 'pav_refusal', 'pav_one_seat', 'pav_one_seat_
                      'sens_added_count', 'sens_added_fraction', 'sens_quota']
 
 
+def signature(case, clause):
+    op = case['op']
+    if op == 'seq':
+        op = case['runs'][0]['op']
+    return f'{op}:{clause}'
+
+
 def nontrivial(case, obs):
-    if case['op'] == 'pav_seq':
+    if case['op'] in ('pav_seq', 'seq'):
         return any(not _is_err(o) for o in obs)
     cands = {c for b, _ in case['votes'] for c in (b if case['op'] in ('pav', 'spav') else [x[0] for x in b])}
     return len(cands) >= 2 and not _is_err(obs)
 
 
 def shrink_candidates(case):
+    if case['op'] == 'seq':
+        for i in range(len(case['runs'])):
+            if len(case['runs']) > 1:
+                c = dict(case)
+                c['runs'] = case['runs'][:i] + case['runs'][i + 1:]
+                yield c
+        return
     vs = case['votes']
     for i in range(len(vs)):
         if len(vs) > 1:
@@ -1502,6 +1519,8 @@ def shrink_candidates(case):
 
 def describe(case):
     op = case['op']
+    if op == 'seq':
+        return 'one evaluator object, calls: ' + ' ; '.join(describe(r) for r in case['runs'])
     if op in ('pav', 'pav_seq', 'spav'):
         votes = {tuple(sorted(f'c{c}' for c in b)): w for b, w in case['votes']}
         cls = 'SequentialProportionalApproval' if op == 'spav' else 'ProportionalApproval'
